@@ -170,6 +170,7 @@ fn client_body(client: usize, plan: Arc<Plan>, db: Arc<DB>, out: Shared, log: Ar
             o.hist(((client as u64) << 32) | idx as u64);
         });
         match op {
+            Op::Align { mask, nth } => rt::align_request(*mask, *nth),
             Op::Put { .. } | Op::Delete { .. } | Op::Batch { .. } => {
                 let mut batch = Batch::new();
                 let mut items: Vec<(usize, Option<u32>)> = vec![];
@@ -525,7 +526,9 @@ pub fn body(case: &Case, out: &Shared) {
         if quiesce_first {
             let _ = call("quiesce", || db.verif_wait_quiescent());
         }
-        if !rt::is_poisoned() {
+        // close while the background thread is still busy: no final reads that would give it time
+        let early_close = !quiesce_first && case.params.get("early_close").copied().unwrap_or(0) != 0;
+        if !rt::is_poisoned() && !early_close {
             match call("scan", || scan_forward(&db, None)) {
                 Called::Ok(Ok(d)) => {
                     check_groups(out, &plan, &d, "final scan", usize::MAX, &groups);
@@ -707,6 +710,14 @@ pub fn body(case: &Case, out: &Shared) {
     let completed = healthy && !rt::is_poisoned();
     match Arc::try_unwrap(db) {
         Ok(db) => {
+            // optionally line the close up with a point inside the background thread
+            if let (Some(m), Some(n)) = (case.params.get("close_align_mask"), case.params.get("close_align_nth")) {
+                rt::align_request(*m as u16, *n as u32);
+                with_out(out, |o| o.stats.bump("close_align_requests", 1));
+            }
+            if completed && db.verif_shape().background_scheduled {
+                with_out(out, |o| o.stats.probe("close_while_background_work_scheduled"));
+            }
             let _ = call("drop", move || drop(db));
         }
         Err(db) => {
